@@ -279,6 +279,9 @@ def check(ctx, rep):
     from .c10 import rule_accumulate_all
 
     rule_accumulate_all(ctx, rep)
+    from .c17 import rule_exec_order
+
+    rule_exec_order(ctx, rep)
     rep.not_covered += [
         "semgrep_prefilter_results is computed once before any rewrite and gates each later detector run: whether one codemod's "
         "rewrite can enable another's rule needs semgrep semantics (declined; no enabling pair could be constructed)",
